@@ -437,8 +437,8 @@ def random_oracle(ctx):
 
 
 def campaign_random(ctx):
-    ctx.search(random_cases(), random_oracle(ctx), ctx.budget(4000, 200000))
-campaign_random.shards = (4, 16)
+    ctx.search(random_cases(), random_oracle(ctx), ctx.budget(20000, 200000))
+campaign_random.shards = (8, 16)
 
 
 CAMPAIGNS = {"enum8": campaign_enum8, "enum16": campaign_enum16, "random": campaign_random}
